@@ -2124,6 +2124,9 @@ func e2eChild(o vh.Opts) {
 	for e := 0; e < nEnv && orc.Error == ""; e++ {
 		shards := rng.Range(1, 3)
 		limits := genLim(rng)
+		if e == 0 && limits.small() { // the first environment (sealed + active fraction, async histograms) never refuses
+			limits = "1"
+		}
 		if e == 1 { // the second environment always runs with small limits and two shards: some store refuses
 			limits = limSpec(fmt.Sprintf("s%d.%d.0", rng.Range(1, 3), rng.Range(0, 3)))
 			shards = 2
